@@ -247,5 +247,23 @@ func runC08(ctx *harness.Ctx) {
 		}
 		ctx.Check(t, cs, oracleC08(ctx, cs))
 	})
+	// exhaustive size sweep: documented list / nesting forms at every size 0..300 (thresholds at some token count)
+	ctx.Leg("size-sweep", func() {
+		kinds := map[string]string{"ParseExpr": "expr", "ParseQuery": "query", "ParseDML": "dml", "ParseDDL": "ddl", "ParseType": "type"}
+		forSweep(ctx, func(entry, src string, n int) bool {
+			kind, ok := kinds[entry]
+			if !ok || strings.HasPrefix(src, "ARRAY<ARRAY<") || strings.HasPrefix(src, "((SELECT 1))") || strings.HasPrefix(src, "(((") {
+				return true // statement lists belong to the list leg; arrays of arrays and multiply parenthesised operands are not documented forms
+			}
+			cs := &harness.Case{Leg: "size-sweep", Entry: entry, Input: src, Aux: map[string]string{"kind": kind, "plain": trunc(src, 200)}}
+			ctx.Eval(1)
+			if n >= 2 {
+				ctx.NonTrivial(harness.Hash("sweep", src))
+			}
+			ctx.Check(nil, cs, oracleC08(ctx, cs))
+			return ctx.ViolationCount() < 6
+		})
+		ctx.Exhaustive(fmt.Sprintf("%d size-sweep templates x every size 0..%d", len(sweepTemplates), sweepMax), ctx.ViolationCount() == 0)
+	})
 	ctx.SetExtra("sentences_with_avoided_known_feature", float64(excluded))
 }
